@@ -255,6 +255,15 @@ def interaction_schemas():
                            TYPE("b1", [K("k1", "integer", default="1")], extends="b0", datatype="wrap"),
                            TYPE("b2", [MK("k2", "boolean")], extends="b1")],
                     children=[MSEC("b2", "*", "twos"), SEC("b0", "*", "zero"), SEC("b1", "+", "one")]))
+    # 12 derived types that change the key type: wildcard defaults are re-normalised from the spelling
+    #    in the schema (basic-key -> identifier and identifier -> basic-key); inherited names are fixed points
+    S.append(SCHEMA(types=[TYPE("b0", [K("k0"), K("+", attribute="w", defaults=[("Path", "p"), ("d1", "dv")]),
+                                        ]),
+                           TYPE("b1", [K("k1")], extends="b0", keytype="identifier"),
+                           TYPE("c0", [MK("+", "integer", attribute="wm", defaults=[("Alpha", "1"), ("beta", "2")])],
+                                keytype="identifier"),
+                           TYPE("c1", [K("own")], extends="c0", keytype="basic-key")],
+                    children=[MSEC("b1", "*", "ones"), SEC("b0", "+", "zero"), MSEC("c1", "*", "cs"), SEC("c0", "+", "c")]))
     return S
 
 
